@@ -193,7 +193,7 @@ def gen_arm(ctx, binp):
 
 
 def rand_arm(ctx, binp):
-    n = 40000 if ctx.tier == 'thorough' else 5000
+    n = 30000 if ctx.tier == 'thorough' else 5000
     ep = os.path.join(ctx.build, 'rand_events.ndjson')
     ctx.run([binp, 'rand', str(n), ep], check=True, timeout=1800)
     events = vlib.read_ndjson(ep)
